@@ -32,6 +32,7 @@
 
 using namespace rkcommon::utility;
 
+#ifndef C11_FALLBACK
 // FixedArray<T>::View is the byte view whatever T is (used by networking/DataStreaming with T = uint8_t)
 static_assert(std::is_same<FixedArray<uint8_t>::View, FixedArrayView<uint8_t>>::value &&
                   std::is_same<FixedArray<int>::View, FixedArrayView<uint8_t>>::value,
@@ -40,6 +41,7 @@ static_assert(std::has_virtual_destructor<AbstractArray<int>>::value && std::has
                   std::has_virtual_destructor<FixedArray<int>>::value && std::has_virtual_destructor<FixedArrayView<int>>::value &&
                   std::has_virtual_destructor<ArrayView<int>>::value,
               "wrappers are destroyed through AbstractArray<T>*");
+#endif
 
 struct E24
 {
@@ -418,7 +420,11 @@ struct Machine
       Slot<T> &s = sl[i];
       s.kind = kd;
       switch (kd) {
+#ifdef C11_FALLBACK
+      case 'V': s.v = new ArrayView<T>(p, n); s.vk = vk; s.vgen = vk >= 0 ? src[vk].gen : 0; s.voff = L(4); break;
+#else
       case 'V': s.v = new ArrayView<T>(make_ArrayView(p, n)); s.vk = vk; s.vgen = vk >= 0 ? src[vk].gen : 0; s.voff = L(4); break;   // the namespace-level factory
+#endif
       case 'O': s.o = new OwnedArray<T>(p, n); break;
       case 'F': s.f = std::make_shared<FixedArray<T>>(p, n); break;
       }
